@@ -10,6 +10,7 @@ cp $SRC/patch.diff $SRC/demo_test.go $DST/ 2>/dev/null
 cp $SRC/meta.json $DST/meta.agent.json 2>/dev/null
 PKGDIR=$(python3 -c "import json;print(json.load(open('$SRC/meta.json')).get('demo_pkg_dir','.'))")
 TNAME=$(python3 -c "import json;print(json.load(open('$SRC/meta.json')).get('demo_test_name',''))")
+RACE=$(python3 -c "import json;m=json.load(open('$SRC/meta.json'));print('-race' if '-race' in json.dumps(m) else '')")
 W=/tmp/seedchk-$P-$K
 git -C /repo worktree remove --force $W >/dev/null 2>&1
 git -C /repo worktree add -q --detach $W HEAD || exit 2
@@ -20,9 +21,9 @@ if [ $applies = yes ]; then
   git apply $DST/patch.diff
   if go build ./... >/dev/null 2>&1 && go test -vet=off -count=1 ./... >/tmp/seed-suite-$P-$K.log 2>&1; then suite=yes; fi
   cp $DST/demo_test.go $W/$PKGDIR/zz_seed_demo_test.go
-  if ! (cd $W/$PKGDIR && go test -vet=off -count=1 -run "^${TNAME}\$" . >/tmp/seed-demo1-$P-$K.log 2>&1); then demofail=yes; fi
+  if ! (cd $W/$PKGDIR && go test $RACE -vet=off -count=1 -run "^${TNAME}\$" . >/tmp/seed-demo1-$P-$K.log 2>&1); then demofail=yes; fi
   git checkout -q -- . 
-  if (cd $W/$PKGDIR && go test -vet=off -count=1 -run "^${TNAME}\$" . >/tmp/seed-demo2-$P-$K.log 2>&1); then demopass=yes; fi
+  if (cd $W/$PKGDIR && go test $RACE -vet=off -count=1 -run "^${TNAME}\$" . >/tmp/seed-demo2-$P-$K.log 2>&1); then demopass=yes; fi
 fi
 cd /; git -C /repo worktree remove --force $W
 detected=no; out=""
